@@ -1,0 +1,20 @@
+//go:build verif
+
+package nonprod
+
+import (
+	"crypto/rsa"
+	"io"
+)
+
+// VerifGenerateKey, when set, supplies the keys the signer "generates". Simulation-only seam:
+// rsa.GenerateKey deliberately ignores determinism of its reader, so a simulator that wants
+// repeatable key bytes (and cheap runs) hands out keys from a pool of its own.
+var VerifGenerateKey func(random io.Reader, bitSize int) (*rsa.PrivateKey, error)
+
+func generateRSAKey(random io.Reader, bitSize int) (*rsa.PrivateKey, error) {
+	if VerifGenerateKey != nil {
+		return VerifGenerateKey(random, bitSize)
+	}
+	return rsa.GenerateKey(random, bitSize)
+}
